@@ -147,7 +147,132 @@ func findName(list []nameAtom, s string) (nameAtom, bool) {
 			return a, true
 		}
 	}
+	// not a listed atom: names drawn from the dictionaries of real-world names or from the token grammar are
+	// labelled by the documented rules themselves
+	kind := ""
+	switch {
+	case len(list) > 0 && &list[0] == &methodAtomsL[0]:
+		kind = "method"
+	case len(list) > 0 && &list[0] == &reqHdrAtomsL[0]:
+		kind = "req"
+	case len(list) > 0 && &list[0] == &resHdrAtomsL[0]:
+		kind = "res"
+	}
+	if r, ok := classifyName(kind, s); ok {
+		return nameAtom{S: s, Reason: r}, true
+	}
 	return nameAtom{}, false
+}
+
+func isTokenString(s string) bool {
+	if s == "" {
+		return false
+	}
+	for i := 0; i < len(s); i++ {
+		if !isTokenByte(s[i]) {
+			return false
+		}
+	}
+	return true
+}
+
+func asciiLower(s string) string {
+	b := []byte(s)
+	for i, c := range b {
+		if 'A' <= c && c <= 'Z' {
+			b[i] = c + 32
+		}
+	}
+	return string(b)
+}
+
+var fetchForbiddenReqHdrs = map[string]bool{"accept-charset": true, "accept-encoding": true, "access-control-request-headers": true, "access-control-request-method": true,
+	"access-control-request-private-network": true, "connection": true, "content-length": true, "cookie": true, "cookie2": true, "date": true, "dnt": true, "expect": true, "host": true,
+	"keep-alive": true, "origin": true, "referer": true, "set-cookie": true, "te": true, "trailer": true, "transfer-encoding": true, "upgrade": true, "via": true}
+
+// classifyName labels a method or header name that is not a listed atom by the documented rules: not a token ->
+// invalid; a forbidden method / a forbidden request-header name of the Fetch standard (the discrete list, the
+// proxy- and sec- prefixes) / a forbidden response-header name -> forbidden; a CORS response header listed as
+// request header, or Origin / a CORS request header listed as response header -> prohibited; everything else is
+// permitted. ok is false where the documentation is silent (Access-Control-* names as exposed headers).
+func classifyName(kind, s string) (reason string, ok bool) {
+	if kind == "" || s == "*" {
+		return "", false
+	}
+	if !isTokenString(s) {
+		return "invalid", true
+	}
+	l := asciiLower(s)
+	switch kind {
+	case "method":
+		switch strings.ToUpper(s) {
+		case "CONNECT", "TRACE", "TRACK":
+			return "forbidden", true
+		}
+		return "", true
+	case "req":
+		if fetchForbiddenReqHdrs[l] || strings.HasPrefix(l, "proxy-") || strings.HasPrefix(l, "sec-") {
+			return "forbidden", true
+		}
+		switch l {
+		case "access-control-allow-origin", "access-control-allow-credentials", "access-control-allow-methods", "access-control-allow-headers",
+			"access-control-allow-private-network", "access-control-max-age", "access-control-expose-headers":
+			return "prohibited", true
+		}
+		return "", true
+	case "res":
+		switch l {
+		case "set-cookie", "set-cookie2":
+			return "forbidden", true
+		case "origin", "access-control-request-method", "access-control-request-headers", "access-control-request-private-network":
+			return "prohibited", true
+		}
+		if strings.HasPrefix(l, "access-control-") {
+			return "", false // grey: documented nowhere
+		}
+		return "", true
+	}
+	return "", false
+}
+
+// names that real deployments list, none of them forbidden or prohibited (the method-override headers are forbidden
+// by the Fetch standard only in combination with certain VALUES; the names themselves are permitted)
+var realReqHdrNames = []string{"X-HTTP-Method-Override", "X-Method-Override", "X-HTTP-Method", "Accept-Language", "Content-Language", "Range", "If-Match", "If-Modified-Since",
+	"If-Unmodified-Since", "If-Range", "X-CSRF-Token", "X-XSRF-TOKEN", "X-Api-Key", "X-Request-Id", "X-Correlation-ID", "Idempotency-Key", "Prefer", "Content-Encoding",
+	"Content-Disposition", "Content-MD5", "Pragma", "User-Agent", "X-Forwarded-For", "Forwarded", "From", "Max-Forwards", "Traceparent", "Tracestate", "Baggage", "X-B3-TraceId",
+	"Last-Event-ID", "Depth", "Destination", "Overwrite", "Timeout", "Lock-Token", "If", "Slug", "Link", "X-Upload-Content-Type", "X-Goog-Api-Key", "X-Amz-Date",
+	"X-Amz-Content-Sha256", "X-Amz-Security-Token", "Priority", "Save-Data", "Downlink", "DPR", "Width", "Viewport-Width", "Device-Memory", "Early-Data", "Accept-Patch",
+	"Content-Location", "Content-Range", "Retry-After", "Www-Authenticate", "Securely", "Proxying", "Sec", "Proxy", "Cookies", "Hosts", "Accept-Charsets", "X-Cookie", "X-Sec-Fetch-Site"}
+
+var realResHdrNames = []string{"X-Request-Id", "X-RateLimit-Limit", "X-RateLimit-Remaining", "X-RateLimit-Reset", "Retry-After", "Link", "Content-Range", "Accept-Ranges",
+	"Content-Disposition", "Content-Encoding", "Www-Authenticate", "X-Total-Count", "Date", "Server", "Vary", "Age", "Allow", "Alt-Svc", "Server-Timing", "Timing-Allow-Origin",
+	"X-Powered-By", "Strict-Transport-Security", "Set-Cookies", "Origins", "Traceparent", "Grpc-Status", "Grpc-Message", "Digest", "Sourcemap", "Content-Location"}
+
+var realMethodNames = []string{"PROPFIND", "PROPPATCH", "MKCOL", "COPY", "MOVE", "LOCK", "UNLOCK", "REPORT", "SEARCH", "LINK", "UNLINK", "CHECKOUT", "MERGE", "NOTIFY", "SUBSCRIBE",
+	"BREW", "TRACES", "CONNECTS", "TRACKING", "XTRACE", "Connecting", "propfind"}
+
+// genTokenName draws a name from the token grammar that the documented rules permit.
+func genTokenName(t *rapid.T, kind string) string {
+	const tchar = "abcdefghijklmnopqrstuvwxyzABCDEFGHIJKLMNOPQRSTUVWXYZ0123456789!#$%&'*+-.^_`|~"
+	for {
+		n := 1 + uniform(t, "toklen", 20)
+		b := make([]byte, n)
+		for i := range b {
+			if chance(t, "tokplain", 70) {
+				b[i] = tchar[uniform(t, "tokletter", 52)]
+			} else {
+				b[i] = tchar[uniform(t, "tokany", len(tchar))]
+			}
+		}
+		s := string(b)
+		if kind == "req" || kind == "res" {
+			// header names that end up in Access-Control-Request-Headers are lower-cased by browsers; avoid the one
+			// byte whose lower-casing is undefined territory - none: all tchar are fine
+		}
+		if r, ok := classifyName(kind, s); ok && r == "" && s != "*" {
+			return s
+		}
+	}
 }
 
 // ---- expected errors ------------------------------------------------------
@@ -367,6 +492,20 @@ func pickOriginAtom(t *rapid.T, wantInvalid bool) string {
 }
 
 func pickName(t *rapid.T, label string, list []nameAtom, wantBad bool) string {
+	if !wantBad && chance(t, label+"_open", 30) {
+		// beyond the listed atoms: names real deployments list, and names straight from the token grammar
+		kind, dict := "method", realMethodNames
+		switch {
+		case &list[0] == &reqHdrAtomsL[0]:
+			kind, dict = "req", realReqHdrNames
+		case &list[0] == &resHdrAtomsL[0]:
+			kind, dict = "res", realResHdrNames
+		}
+		if chance(t, label+"_dict", 60) {
+			return pick(t, label+"_real", dict)
+		}
+		return genTokenName(t, kind)
+	}
 	var pool []string
 	for _, a := range list {
 		if (a.Reason != "") == wantBad && a.S != "*" {
